@@ -62,6 +62,6 @@ Print Assumptions C04_subdivide_nodes_shape.
 
 (* non-vacuity: a concrete cubic meets the hypotheses and the halves are what one expects *)
 Example C04_example :
-  subdivide_nodes_py (qcs [0; 1; 3; 2]%Q)
-  = (qcs [0; 1#2; 5#4; 7#4]%Q, qcs [7#4; 9#4; 5#2; 2]%Q).
+  let lr := subdivide_nodes_py (qcs [0; 1; 3; 2]%Q) in
+  vec_eqb (fst lr) (qcs [0; 1#2; 5#4; 7#4]%Q) && vec_eqb (snd lr) (qcs [7#4; 9#4; 5#2; 2]%Q) = true.
 Proof. vm_compute. reflexivity. Qed.
